@@ -141,6 +141,16 @@ def ctor_guard(fx, body):
                 nr = ("un", "Not", r_)
                 acc = nr if acc is None else ("bin", "And", acc, nr)
             return n_local, acc
+    # any other spelling (a validation helper, `.map(|n| Self { .. })`): run the constructor on every u8; an accepted interval is
+    # handed on as the condition `lo <= n && n <= hi`
+    from ..disasm import concrete_ctor_table
+
+    tab = concrete_ctor_table(fx, body)
+    if tab:
+        ns = sorted(tab)
+        if ns == list(range(ns[0], ns[-1] + 1)):
+            nl = ("local", n_local, params[0].get("name"))
+            return n_local, ("bin", "And", ("bin", "Ge", nl, ("lit", str(ns[0]))), ("bin", "Le", nl, ("lit", str(ns[-1]))))
     return None
 
 
